@@ -133,3 +133,51 @@ pub mod node {
         })
     }
 }
+
+/// Metric items: construction from, and projection to, plain values.
+pub mod metric_item {
+    use crate::base::MetricItem;
+
+    #[allow(clippy::too_many_arguments)]
+    pub fn make(
+        resource: String,
+        resource_type: u8,
+        timestamp: u64,
+        pass: u64,
+        block: u64,
+        complete: u64,
+        error: u64,
+        avg_rt: u64,
+        occupied: u64,
+        concurrency: u32,
+    ) -> MetricItem {
+        MetricItem {
+            resource,
+            resource_type: resource_type.into(),
+            timestamp,
+            pass_qps: pass,
+            block_qps: block,
+            complete_qps: complete,
+            error_qps: error,
+            avg_rt,
+            occupied_pass_qps: occupied,
+            concurrency,
+        }
+    }
+
+    /// (resource, type, timestamp, pass, block, complete, error, avg_rt, occupied, concurrency)
+    pub fn fields(i: &MetricItem) -> (String, u8, u64, u64, u64, u64, u64, u64, u64, u32) {
+        (
+            i.resource.clone(),
+            i.resource_type as u8,
+            i.timestamp,
+            i.pass_qps,
+            i.block_qps,
+            i.complete_qps,
+            i.error_qps,
+            i.avg_rt,
+            i.occupied_pass_qps,
+            i.concurrency,
+        )
+    }
+}
